@@ -254,7 +254,12 @@ func listPrimitiveKind(f *ssa.Function) string {
 	if !ok {
 		return ""
 	}
-	if _, ok := pt.Elem().Underlying().(*types.Slice); !ok {
+	sl, ok := pt.Elem().Underlying().(*types.Slice)
+	if !ok {
+		return ""
+	}
+	// the second parameter is the element itself (removal / insertion by identity, not by position)
+	if !types.Identical(sl.Elem(), f.Params[1].Type()) {
 		return ""
 	}
 	kind := ""
